@@ -6,11 +6,14 @@ Import ListNotations.
 Open Scope Z_scope.
 
 (* ------------------------------------------------------------------------------------------------ failed = identity *)
-Lemma failed_is_identity : forall clip cd c x, snd (apply clip cd c x) = false -> fst (apply clip cd c x) = c.
+(* schemafirst: CreateMeasurement checks its schema list before it registers the measurement (/repo f21700b); without it
+   the statement is false (Refuted.v, C16_half_applied_refuted) *)
+Lemma failed_is_identity : forall clip cd c x, schemafirst c = true -> snd (apply clip cd c x) = false -> fst (apply clip cd c x) = c.
 Proof.
-  intros clip cd c x. destruct x; cbn [apply];
+  intros clip cd c x SF. destruct x; cbn [apply];
     unfold create_db, mark_db, drop_db, create_rp, update_rp, mark_rp, drop_rp, set_default_rp, create_mst, mark_mst, drop_mst,
-      create_sg, delete_sg, prune_sg, delete_ig, prune_ig, create_node, create_ptview, update_pt, ok, err;
+      create_sg, delete_sg, prune_sg, delete_ig, prune_ig, create_node, create_ptview, update_pt, create_mst_bad, rename_rp,
+      cancel_delete_sg, remove_node, ok, err; rewrite ?SF;
     repeat match goal with
            | |- context [match ?e with _ => _ end] => destruct e eqn:?; cbn [fst snd]
            | |- context [if ?e then _ else _] => destruct e eqn:?; cbn [fst snd]
